@@ -9,8 +9,96 @@ use nomt::{HashAlgorithm, KeyReadWrite, Nomt, Options, Overlay, Session, Session
 use serde_json::{json, Value};
 use std::path::{Path, PathBuf};
 
-pub type B3 = Blake3Hasher;
+/// The hasher every store of the harness is opened with (the name is historical): a hasher that
+/// dispatches on a process-global mode set at the start of each case, so that the whole harness —
+/// store, reference trie, proof checks, decoder — runs one history under any of the hashers
+/// without being generic over them:
+/// 0 = Blake3 (kind in the MSB: 1 = leaf), 1 = Sha2 (same labelling), 2 = Blake3 with the labels
+/// FLIPPED (MSB 1 = internal), 3 = Blake3 with the kind in the LEAST significant bit of the last
+/// byte (1 = leaf). `NodeHasher` leaves the labelling scheme to `node_kind`.
+pub struct SwitchHasher;
+pub type B3 = SwitchHasher;
 pub type S2 = Sha2Hasher;
+
+static HASHER_MODE: std::sync::atomic::AtomicU8 = std::sync::atomic::AtomicU8::new(0);
+
+pub fn set_hasher_mode(m: u8) {
+    HASHER_MODE.store(m, std::sync::atomic::Ordering::SeqCst);
+}
+
+fn hasher_mode() -> u8 {
+    HASHER_MODE.load(std::sync::atomic::Ordering::Relaxed)
+}
+
+impl nomt::hasher::ValueHasher for SwitchHasher {
+    fn hash_value(value: &[u8]) -> [u8; 32] {
+        match hasher_mode() {
+            1 => <Sha2Hasher as nomt::hasher::ValueHasher>::hash_value(value),
+            _ => <Blake3Hasher as nomt::hasher::ValueHasher>::hash_value(value),
+        }
+    }
+}
+
+impl nomt::hasher::NodeHasher for SwitchHasher {
+    fn hash_leaf(data: &LeafData) -> [u8; 32] {
+        use nomt::hasher::NodeHasher as NH;
+        match hasher_mode() {
+            1 => <Sha2Hasher as NH>::hash_leaf(data),
+            2 => {
+                let mut h = <Blake3Hasher as NH>::hash_leaf(data);
+                h[0] &= 0x7f;
+                if h == [0u8; 32] {
+                    h[31] = 1;
+                }
+                h
+            }
+            3 => {
+                let mut h = <Blake3Hasher as NH>::hash_leaf(data);
+                h[31] |= 1;
+                h
+            }
+            _ => <Blake3Hasher as NH>::hash_leaf(data),
+        }
+    }
+
+    fn hash_internal(data: &nomt::trie::InternalData) -> [u8; 32] {
+        use nomt::hasher::NodeHasher as NH;
+        match hasher_mode() {
+            1 => <Sha2Hasher as NH>::hash_internal(data),
+            2 => {
+                let mut h = <Blake3Hasher as NH>::hash_internal(data);
+                h[0] |= 0x80;
+                h
+            }
+            3 => {
+                let mut h = <Blake3Hasher as NH>::hash_internal(data);
+                h[31] &= !1;
+                if h == [0u8; 32] {
+                    h[31] = 2;
+                }
+                h
+            }
+            _ => <Blake3Hasher as NH>::hash_internal(data),
+        }
+    }
+
+    fn node_kind(node: &nomt::trie::Node) -> nomt::trie::NodeKind {
+        use nomt::trie::NodeKind;
+        if node == &nomt::trie::TERMINATOR {
+            return NodeKind::Terminator;
+        }
+        let leaf = match hasher_mode() {
+            2 => node[0] >> 7 == 0,
+            3 => node[31] & 1 == 1,
+            _ => node[0] >> 7 == 1,
+        };
+        if leaf {
+            NodeKind::Leaf
+        } else {
+            NodeKind::Internal
+        }
+    }
+}
 
 #[derive(Clone, Debug, PartialEq)]
 pub struct Cfg {
@@ -34,6 +122,8 @@ pub struct Cfg {
     pub leaf_amnesia: u8,
     /// fill every buffer the page pool hands out with this byte first (0 = off)
     pub pool_poison: u8,
+    /// hasher mode of `SwitchHasher` (0 Blake3, 1 Sha2, 2 flipped labels, 3 label in the last bit)
+    pub hasher: u8,
 }
 
 impl Default for Cfg {
@@ -55,6 +145,7 @@ impl Default for Cfg {
             io_reverse: false,
             leaf_amnesia: 0,
             pool_poison: 0,
+            hasher: 0,
         }
     }
 }
@@ -74,7 +165,7 @@ impl Cfg {
         json!({"buckets": self.buckets, "seed": self.seed, "cc": self.cc, "io_workers": self.io_workers,
                "rollback": self.rollback, "log_len": self.log_len, "warm_up": self.warm_up,
                "page_cache": self.page_cache, "leaf_cache": self.leaf_cache, "prepopulate": self.prepopulate,
-               "upper_levels": self.upper_levels, "preallocate": self.preallocate, "seg_size": self.seg_size, "io_reverse": self.io_reverse, "leaf_amnesia": self.leaf_amnesia, "pool_poison": self.pool_poison})
+               "upper_levels": self.upper_levels, "preallocate": self.preallocate, "seg_size": self.seg_size, "io_reverse": self.io_reverse, "leaf_amnesia": self.leaf_amnesia, "pool_poison": self.pool_poison, "hasher": self.hasher})
     }
     pub fn from_json(v: &Value) -> Self {
         let d = Cfg::default();
@@ -97,6 +188,7 @@ impl Cfg {
             io_reverse: b("io_reverse", d.io_reverse),
             leaf_amnesia: u("leaf_amnesia", d.leaf_amnesia as u64) as u8,
             pool_poison: u("pool_poison", d.pool_poison as u64) as u8,
+            hasher: u("hasher", d.hasher as u64) as u8,
         }
     }
     pub fn options(&self, dir: &Path) -> Options {
@@ -172,6 +264,7 @@ pub fn open_nomt<H: HashAlgorithm>(dir: &Path, cfg: &Cfg) -> anyhow::Result<Nomt
     nomt::verif::io::set_reverse_completions(cfg.io_reverse);
     nomt::verif::knobs::set_leaf_cache_amnesia(cfg.leaf_amnesia);
     nomt::verif::knobs::set_page_pool_poison(cfg.pool_poison);
+    set_hasher_mode(cfg.hasher);
     Nomt::<H>::open(cfg.options(dir))
 }
 
